@@ -132,6 +132,9 @@ def scalar_visit(cls: str):
         c.ensures("verdict", lambda r, post: S.no_errors(r) == S.conforms_def(ct, cls, Sx, v), ("C02",))
         c.ensures("located", lambda r, post: located(ct, cls, r, Sx, v, pseq, post), ("C03",))
         c.ensures("path-frame", lambda r, post: path_frame(post), ("C03", "C07"))
+        if cls == "FloatSchema":
+            c.known_region("C02-float-nan", "visit_float:ensures[verdict]",
+                           z3.Or(M.is_FNanV(v), M.is_FNanV(S.prop(Sx, "min")), M.is_FNanV(S.prop(Sx, "max"))))
     return body
 
 
@@ -140,3 +143,15 @@ for _m, _cls in [("visit_none", "NoneSchema"), ("visit_bool", "BoolSchema"), ("v
                  ("visit_bytes", "BytesSchema"), ("visit_datetime", "DateTimeSchema"),
                  ("visit_uuid4", "UUID4Schema"), ("visit_date", "DateSchema")]:
     contract(VAL, f"Validator.{_m}", props=("C02", "C03", "C08", "C07"), group="validator")(scalar_visit(_cls))
+
+
+# -- loop invariants -----------------------------------------------------------------------------------
+@invariant(VAL, "Validator.visit_str", loop=0)
+def _inv_alphabet(L):
+    """L2: every letter seen so far is in the alphabet; nothing has been recorded by the loop."""
+    v = M.sval(L.v("value"))
+    a = M.sval(S.prop(L.v("schema"), "alphabet"))
+    j = z3.Int("ij")
+    return z3.And(L.v("result") == L.pre("result"),
+                  z3.ForAll([j], z3.Implies(z3.And(0 <= j, j < L.i), z3.Contains(a, z3.SubString(v, j, 1))),
+                            patterns=[z3.SubString(v, j, 1)]))
